@@ -72,3 +72,26 @@ int k_write_dense(int n, int m, const int *v) {
     catch (...) { rc = 1; }
     after_writing(name); return rc;
 }
+
+// the same reader / writer sequence with an 8-byte payload (sizeof(Val) != sizeof(Col)): offsets into the value block are scaled differently from the column block
+extern "C" __attribute__((noinline))
+int k_read_crs8(int row_beg, int row_end, int *n_out, int *ptr_out, int ptr_cap, int *col_out, long long *val_out, int nz_cap, int *ptr_len, int *col_len, int *val_len) {
+    std::string name = file_for_reading(); int rc = 0;
+    try { int n = 0; std::vector<int> ptr, col; std::vector<long long> val; amgcl::io::read_crs(name, n, ptr, col, val, row_beg, row_end);
+        *n_out = n; *ptr_len = (int)ptr.size(); *col_len = (int)col.size(); *val_len = (int)val.size();
+        if ((long)ptr.size() > ptr_cap || (long)col.size() > nz_cap || (long)val.size() > nz_cap) rc = 2;
+        else { for (size_t i = 0; i < ptr.size(); ++i) ptr_out[i] = ptr[i]; for (size_t i = 0; i < col.size(); ++i) col_out[i] = col[i]; for (size_t i = 0; i < val.size(); ++i) val_out[i] = val[i]; } }
+    catch (...) { rc = 1; }
+#ifndef VERIF_STUB_IO
+    remove(name.c_str());
+#endif
+    return rc;
+}
+extern "C" __attribute__((noinline))
+int k_write_crs8(int n, const int *ptr, const int *col, const long long *val) {
+    std::string name = file_for_writing(); int rc = 0;
+    try { std::vector<int> p(ptr, ptr + n + 1), c(col, col + ptr[n]); std::vector<long long> v(val, val + ptr[n]); std::ofstream f(name.c_str(), std::ios::binary);
+        if (!amgcl::io::write(f, n) || !amgcl::io::write(f, p)) rc = 1; if (!rc && ptr[n] > 0 && (!amgcl::io::write(f, c) || !amgcl::io::write(f, v))) rc = 1; }
+    catch (...) { rc = 1; }
+    after_writing(name); return rc;
+}
